@@ -147,6 +147,8 @@ class ImplRunner:
         self.cur_id = None
         self.lines_in = []
         self.lines_out = []
+        self.emitted = {}
+        self.faults = {}
         CLOCK.ns = 0
 
     # ---------- event plumbing ----------
@@ -197,11 +199,21 @@ class ImplRunner:
             if box:
                 dt, m = box.pop(0)
                 CLOCK.ns += dt
+                runner.ev(i, 'rx@%d:%d:%d:%s' % (CLOCK.ns, m.arbitration_id, 1 if m.is_extended_id else 0, hexs(m.data)))
                 return m
+            runner.ev(i, 'rxn@%d' % CLOCK.ns)
             return None
 
         def txfn(m):
-            runner.outbox[i].append(m)
+            n = runner.emitted.get(i, 0)
+            runner.emitted[i] = n + 1
+            f = runner.faults.get(i)
+            if f is not None and f[1] == n:
+                if f[0] == 'dup':
+                    runner.outbox[i].append(m)
+                    runner.outbox[i].append(m)
+            else:
+                runner.outbox[i].append(m)
             runner.ev(i, 'tx@%d:%s' % (CLOCK.ns, runner.fmt_msg(m)))
 
         def err(e):
@@ -209,10 +221,18 @@ class ImplRunner:
 
         try:
             address = make_address(a)
+        except Exception as e:
+            self.plain(' '.join(toks), 'exc %s' % type(e).__name__)
+            return
+        try:
             cls = op.get('cls', isotp.TransportLayerLogic)
             L = cls(rxfn, txfn, address, err, params)
         except Exception as e:
-            self.plain(' '.join(toks), 'exc %s' % type(e).__name__)
+            # the address is fine: the parameters were refused -> the model judges the raw parameters
+            raw = {k: v for k, v in params.items() if k != 'wait_func'}
+            self.do_params({'params': raw})
+            if not self.lines_out[-1].startswith('exc'):
+                self.lines_out[-1] = 'exc %s' % type(e).__name__
             return
 
         base = isotp.TransportLayerLogic.SendRequest
@@ -246,12 +266,18 @@ class ImplRunner:
         if p.tx_data_min_length is not None:
             c.append('minlen=%d' % p.tx_data_min_length)
         if p.override_receiver_stmin is not None:
-            t = isotp.protocol.Timer(0)
-            t.set_timeout(p.override_receiver_stmin)
-            c.append('ovr=%d' % t.timeout)
+            try:
+                t = isotp.protocol.Timer(0)
+                t.set_timeout(p.override_receiver_stmin)
+                c.append('ovr=%d' % t.timeout)
+            except (OverflowError, ValueError):
+                pass        # conversion itself fails: outside the model; the judges see what the code does with it
         rl = L.rate_limiter
-        c.append('rlw=%d' % math.floor(Fraction(rl.window_size_sec) * 10**9))
-        c.append('rlb=%d' % math.floor(rl.window_bit_max))
+        try:
+            c.append('rlw=%d' % math.floor(Fraction(rl.window_size_sec) * 10**9))
+            c.append('rlb=%d' % math.floor(rl.window_bit_max))
+        except (OverflowError, ValueError):
+            pass
         self.plain(' '.join(toks + c), 'ok')
 
     def do_send(self, op):
@@ -337,11 +363,21 @@ class ImplRunner:
         i, j, n = op['i'], op['j'], op['n']
         mv = self.outbox[i][:n]
         del self.outbox[i][:n]
+        targets = [j] + ([op['tap']] if op.get('tap') is not None else [])
         for m in mv:
-            self.inbox[j].append((0, isotp.CanMessage(arbitration_id=m.arbitration_id, data=bytes(m.data),
-                                                      extended_id=m.is_extended_id, is_fd=m.is_fd,
-                                                      bitrate_switch=m.bitrate_switch)))
-        self.plain('deliver %d %d %d' % (i, j, n), 'moved %d' % len(mv))
+            for tgt in targets:
+                self.inbox[tgt].append((0, isotp.CanMessage(arbitration_id=m.arbitration_id, data=bytes(m.data),
+                                                            extended_id=m.is_extended_id, is_fd=m.is_fd,
+                                                            bitrate_switch=m.bitrate_switch)))
+        if op.get('tap') is not None:
+            self.plain('deliver %d %d %d %d' % (i, j, n, op['tap']), 'moved %d' % len(mv))
+        else:
+            self.plain('deliver %d %d %d' % (i, j, n), 'moved %d' % len(mv))
+
+    def do_fault(self, op):
+        # arm a fault on the link fed by layer i: the n-th frame it emits (0-based, counted from the start) is dropped / duplicated
+        self.faults[op['i']] = (op['kind'], op['n'])
+        self.plain('fault %d %s %d' % (op['i'], op['kind'], op['n']), 'ok')
 
     def do_drop(self, op):
         i, k = op['i'], op['k']
@@ -388,6 +424,33 @@ class ImplRunner:
                                    so(A.get_rx_extension_byte()))
         is29 = A._is_29bits
         self.plain(line, 'ok is29=%d tx=%s rx=%s' % (is29, txp, rxp))
+
+    def do_params(self, op):
+        raw = op['params']
+        toks = ['params'] + ['%s=%s' % (k, pv(v)) for k, v in raw.items()]
+        P = isotp.TransportLayerLogic.Params()
+        br = raw.get('rate_limit_max_bitrate', P.rate_limit_max_bitrate)
+        w = raw.get('rate_limit_window_size', P.rate_limit_window_size)
+        if isinstance(br, int) and isinstance(w, (int, float)):
+            try:
+                toks.append('prod=%s' % pv(br * w))
+            except OverflowError:
+                toks.append('prod=finf')
+        ov = raw.get('override_receiver_stmin')
+        if isinstance(ov, (int, float)) and not isinstance(ov, bool):
+            try:
+                toks.append('ovrfin=%d' % (1 if math.isfinite(float(ov) * 1e9) else 0))
+            except OverflowError:
+                toks.append('ovrfin=0')
+        try:
+            for k, v in raw.items():
+                P.set(k, v, validate=False)
+            P.wait_func = _noop_wait
+            P.validate()
+            res = 'ok'
+        except Exception as e:
+            res = 'exc %s' % type(e).__name__
+        self.plain(' '.join(toks), res)
 
     def do_ifm(self, op):
         k = op['k']
